@@ -20,7 +20,12 @@ run(ctx)
          * find_islands(im, bkg, rms) and find_islands(-im, -bkg, rms) return the same islands;
          * history: ONE SourceFinder instance asked the four settings in several orders on the same image (same file
            names) answers each time what a fresh finder answers, and its answers satisfy the partition clause
-           (what='history-dependence' otherwise).
+           (what='history-dependence' otherwise);
+         * size threshold: extended sources whose island cut-out exceeds 1024 pixels with a compact source of the opposite
+           sign in a corner of their bounding box (disjoint islands), both sign assignments, forced maps and file-supplied
+           maps with a step;
+         * debug slice: corpus + a sample re-run with the root, 'Aegean' and finder loggers at DEBUG must give bit-identical
+           catalogues (what='logging-dependence' otherwise).
        Correspondence (kind 'corr'), real code vs the Lean model at Float
          * find_islands pixel sets vs `findIslands`;
          * for every island of both runs: the curvature map handed to estimate_lmfit_parinfo vs
@@ -95,6 +100,35 @@ _quiet = logging.getLogger('verif-C13-quiet')
 _quiet.addHandler(logging.NullHandler())
 _quiet.setLevel(logging.CRITICAL + 1)
 _quiet.propagate = False
+
+
+_dbg = logging.getLogger('verif-C13-debug')
+_dbg.addHandler(logging.NullHandler())
+_dbg.setLevel(logging.DEBUG)
+_dbg.propagate = False
+
+
+class debug_logging:
+    """root logger and the 'Aegean' logger at DEBUG (as `aegean --debug` or a host application would have them), output
+    silenced, everything restored afterwards"""
+
+    def __enter__(self):
+        self.saved = []
+        for name in (None, 'Aegean'):
+            lg = logging.getLogger(name)
+            self.saved.append((lg, lg.level, list(lg.handlers), lg.propagate))
+            lg.handlers = [logging.NullHandler()]
+            lg.setLevel(logging.DEBUG)
+            if name:
+                lg.propagate = False
+        return self
+
+    def __exit__(self, *a):
+        for lg, level, handlers, prop in self.saved:
+            lg.setLevel(level)
+            lg.handlers = handlers
+            lg.propagate = prop
+        return False
 
 
 class _NoBar:
@@ -256,6 +290,10 @@ def build_case(case):
     if case['mode'] == 'forced':
         rms = np.full((n, n), scale)
         bkg = np.full((n, n), case.get('bkg', 0.25) * scale)
+    elif case['mode'] == 'file-step':
+        # maps with a step (mosaic tile boundary) through the middle of the image
+        rms = scale * np.where(y < n // 2 + 3, 1.0, 1.3)
+        bkg = scale * np.where(x < n // 2 - 2, 0.2, -0.15)
     else:
         rms = scale * (1.0 + 0.25 * (x + 0.5 * y) / n)
         bkg = scale * (0.4 * np.sin(x / n * 2.0) - 0.3 * y / n + 0.1)
@@ -332,17 +370,18 @@ def params_tuple(params):
     return out
 
 
-def run_finder(ctx, case, negate=False, nopositive=False, nonegative=False, record=False, tag='a'):
+def run_finder(ctx, case, negate=False, nopositive=False, nonegative=False, record=False, tag='a', debug=False):
     sfm, _ = _mods()
     im, bkg, rms = build_case(case)
     if negate:
         im, bkg = -im, -bkg
-    sf = sfm.SourceFinder(log=_quiet)
+    sf = sfm.SourceFinder(log=_dbg if debug else _quiet)
     rec = Recorder(sf) if record else None
     kw = dict(cores=1, innerclip=case.get('inner', 5), outerclip=case.get('outer', 4), nopositive=nopositive,
-              nonegative=nonegative, max_summits=case.get('max_summits'))
+              nonegative=nonegative, max_summits=case.get('max_summits'), docov=case.get('docov', True))
     imf = write_fits(ctx, f'im_{tag}.fits', im)
-    with warnings.catch_warnings():
+    import contextlib
+    with warnings.catch_warnings(), (debug_logging() if debug else contextlib.nullcontext()):
         warnings.simplefilter('ignore')
         if case['mode'] == 'forced':
             srcs = sf.find_sources_in_image(imf, rms=float(rms[0, 0]), bkg=float(bkg[0, 0]), **kw)
@@ -355,6 +394,31 @@ def run_finder(ctx, case, negate=False, nopositive=False, nonegative=False, reco
 def to_cat(srcs):
     return [{f: float(getattr(s, f)) for f in FIELDS_SAME + FIELDS_NEG} |
             dict(island=int(s.island), source=int(s.source), flags=int(s.flags)) for s in srcs]
+
+
+def same_catalogue(cat, want, rel=0.0):
+    return [key(c) for c in cat] == [key(c) for c in want] and all(
+        c['flags'] == w['flags'] and all(common.close(c[f], w[f], rel=rel) for f in FIELDS_SAME + FIELDS_NEG)
+        for c, w in zip(cat, want))
+
+
+def debug_slice(ctx, case, fresh, negate=False):
+    """the same runs with the root logger, the 'Aegean' logger and the finder's own logger at DEBUG: results must be
+    bit-identical to the default-level runs"""
+    ok = True
+    for (np_, nn_) in [(False, False), (True, False), (False, True)]:
+        cat, _, _ = run_finder(ctx, case, negate=negate, nopositive=np_, nonegative=nn_, tag='d', debug=True)
+        ctx.count('debug-slice-runs')
+        if not same_catalogue(cat, fresh[(np_, nn_)]):
+            ok = False
+            want = fresh[(np_, nn_)]
+            ctx.fail('spec', dict(case, image='negative' if negate else 'image', nopositive=np_, nonegative=nn_, debug=True),
+                     f"with the loggers at DEBUG find_sources_in_image(nopositive={np_}, nonegative={nn_}) returns {len(cat)} "
+                     f"components (peak fluxes {[round(c['peak_flux'], 3) for c in cat][:8]}), at the default level {len(want)} "
+                     f"({[round(c['peak_flux'], 3) for c in want][:8]})",
+                     dict(what='logging-dependence', site='SourceFinder.find_sources_in_image'))
+            break
+    return ok
 
 
 # the orders in which the four (nopositive, nonegative) settings are asked of ONE SourceFinder instance
@@ -391,7 +455,8 @@ def history_case(ctx, case, fresh, order, negate=False):
         with warnings.catch_warnings():
             warnings.simplefilter('ignore')
             srcs = sf.find_sources_in_image(imf, cores=1, innerclip=case.get('inner', 5), outerclip=case.get('outer', 4),
-                                            nopositive=np_, nonegative=nn_, max_summits=case.get('max_summits'), **extra)
+                                            nopositive=np_, nonegative=nn_, max_summits=case.get('max_summits'),
+                                            docov=case.get('docov', True), **extra)
         cat = to_cat(srcs)
         hist.append([np_, nn_])
         got[(np_, nn_)] = cat
@@ -781,7 +846,7 @@ HIST_COUNTER = [0]
 FORCE_ORDER = [None]     # replay: the recorded order of settings
 
 
-def image_case(ctx, case, lines, todo, stats, full_polarity):
+def image_case(ctx, case, lines, todo, stats, full_polarity, debug=False):
     """all runs for one image case; Spec checks immediately, correspondence lines queued"""
     cat_a, rec_a, sf_a = run_finder(ctx, case, record=True, tag='a')
     cat_b, rec_b, sf_b = run_finder(ctx, case, negate=True, record=True, tag='b')
@@ -795,6 +860,8 @@ def image_case(ctx, case, lines, todo, stats, full_polarity):
         fresh = {(False, False): both, (False, True): pos, (True, False): neg, (True, True): none}
         HIST_COUNTER[0] += 1
         ok = history_case(ctx, case, fresh, FORCE_ORDER[0] or HISTORIES[HIST_COUNTER[0] % len(HISTORIES)], negate=negate) and ok
+        if debug:
+            ok = debug_slice(ctx, case, fresh, negate=negate) and ok
         fluxes = [c['peak_flux'] for c in both]
         for (np_, nn_, cat) in [(0, 0, both), (0, 1, pos), (1, 0, neg), (1, 1, none)]:
             idx = {key(c): i for i, c in enumerate(both)}
@@ -852,6 +919,33 @@ WITNESS_BLANK = dict(kind='image', n=80, mode='forced', noise_seed=20240913, noi
                            [76.0, 12.0, 26.0, 1.0], [72.5, 13.4, 19.0, 1.0]],
                      blanks=[[14, 27, 21, 30], [16, 29, 59, 68], [61, 62, 41, 42], [59, 60, 61, 62], [0, 1, 30, 50],
                              [30, 50, 79, 80]], max_summits=1)
+
+
+# an extended source whose island cut-out exceeds 1024 pixels (41 x 35 box, 1120 pixels) with a compact source of the
+# OPPOSITE sign in a corner of its bounding box: two disjoint single-sign islands (not a mixed-sign island).  Noise-free and
+# without the covariance matrix (docov=False), so the 1120-pixel fit takes 0.1 s.  Both sign assignments; forced maps and
+# file-supplied maps with a step.
+WITNESS_EXT_NEG = dict(kind='image', n=96, mode='forced', noise_seed=5, noise=0.0, bkg=0.1, scale=1.0, inner=5, outer=4,
+                       srcs=[[48.0, 48.0, -200.0, 5.5], [64.4, 34.0, 30.0, 1.0]], max_summits=None, docov=False)
+WITNESS_EXT_POS = dict(kind='image', n=96, mode='file-step', noise_seed=5, noise=0.0, scale=1.0, inner=5, outer=4,
+                       srcs=[[48.0, 48.0, 200.0, 5.5], [31.6, 62.0, -30.0, 1.0]], max_summits=None, docov=False)
+
+
+def large_island_conditions(case):
+    """(number of islands, largest cut-out in pixels, does that cut-out hold an above-flood pixel of another island?)"""
+    sfm, _ = _mods()
+    im, bkg, rms = build_case(case)
+    with warnings.catch_warnings():
+        warnings.simplefilter('ignore')
+        isl = sfm.find_islands(im=im, bkg=bkg, rms=rms, seed_clip=float(case.get('inner', 5)),
+                               flood_clip=float(case.get('outer', 4)), log=_quiet)
+    if not isl:
+        return 0, 0, False
+    big = max(isl, key=lambda I: I.mask.size)
+    (x0, x1), (y0, y1) = big.bounding_box
+    above = (np.abs(im - bkg) / rms >= float(case.get('outer', 4)))[x0:x1, y0:y1]
+    foreign = bool((above & np.array(big.mask, dtype=bool)).any())
+    return len(isl), int(big.mask.size), foreign
 
 
 def corpus_cases():
@@ -1017,10 +1111,17 @@ def run(ctx):
     if ctx.driver_ok:
         gauss_validation(ctx, lines, todo)
     # corpus
-    image_case(ctx, WITNESS_MIXED, lines, todo, stats, full_polarity=False)
-    image_case(ctx, WITNESS_APART, lines, todo, stats, full_polarity=True)
+    image_case(ctx, WITNESS_MIXED, lines, todo, stats, full_polarity=False, debug=True)
+    image_case(ctx, WITNESS_APART, lines, todo, stats, full_polarity=True, debug=True)
     image_case(ctx, WITNESS_FLAT, lines, todo, stats, full_polarity=False)
-    image_case(ctx, WITNESS_BLANK, lines, todo, stats, full_polarity=True)
+    image_case(ctx, WITNESS_BLANK, lines, todo, stats, full_polarity=True, debug=True)
+    for w in (WITNESS_EXT_NEG, WITNESS_EXT_POS, dict(WITNESS_EXT_NEG, mode='file-step'), dict(WITNESS_EXT_POS, mode='forced', bkg=0.1)):
+        nisl, size, foreign = large_island_conditions(w)
+        if nisl == 2 and size > 1024 and foreign:
+            ctx.count('large-island (> 1024 px cut-out) with a pixel of another island in its box')
+        else:
+            raise RuntimeError(f"corpus case lost its shape: {nisl} islands, largest cut-out {size} px, foreign pixel {foreign}")
+        image_case(ctx, w, lines, todo, stats, full_polarity=True, debug=(w is WITNESS_EXT_NEG))
     image_case(ctx, dict(WITNESS_BLANK, mode='file', max_summits=2), lines, todo, stats, full_polarity=False)
     for c in corpus_cases():
         image_case(ctx, c, lines, todo, stats, full_polarity=False)
@@ -1028,8 +1129,9 @@ def run(ctx):
     # generated images
     nimg = 10 if ctx.quick else 60
     for k in range(nimg):
-        for mode in ('forced', 'file'):
-            image_case(ctx, gen_image_case(ctx, mode, k), lines, todo, stats, full_polarity=not ctx.quick)
+        for mode in ('forced', 'file-step' if k % 3 == 1 else 'file'):
+            image_case(ctx, gen_image_case(ctx, mode, k), lines, todo, stats, full_polarity=not ctx.quick,
+                       debug=(k == 0 or (not ctx.quick and k % 10 == 5)))
     small_island_cases(ctx, lines, todo, 80 if ctx.quick else 600)
     finish_stats(ctx, stats)
     if ctx.driver_ok:
@@ -1067,13 +1169,13 @@ def replay(ctx, rec):
     if not rec.get('case'):
         ctx.note("this replay records a failed proof obligation / build, not an input: " + str(rec.get('detail'))[:400])
         return run(ctx)
-    case = {k: v for k, v in rec['case'].items() if k not in ('island', 'image', 'negated', 'nopositive', 'nonegative', 'history')}
+    case = {k: v for k, v in rec['case'].items() if k not in ('island', 'image', 'negated', 'nopositive', 'nonegative', 'history', 'debug')}
     lines, todo = [], []
     stats = new_stats()
     if rec['case'].get('history'):
         FORCE_ORDER[0] = [tuple(bool(b) for b in h) for h in rec['case']['history']]
     if case.get('kind') == 'image':
-        image_case(ctx, case, lines, todo, stats, full_polarity=True)
+        image_case(ctx, case, lines, todo, stats, full_polarity=True, debug=bool(rec['case'].get('debug')))
     elif case.get('kind') == 'injected-filter':
         injected_filter_case(ctx, lines, todo)
     elif case.get('kind') == 'small-island':
